@@ -51,11 +51,11 @@ def _mk_strs(prefix, shape, among):
 
 
 # ---- one-shot two-collection search through the public functions
-def _body_symdel(rshape, qshape, k, entry):
+def _body_symdel(rshape, qshape, k, entry, **kw):
     def body():
         import pyrepseq
         refs, qs = _mk_strs("r", rshape, None), _mk_strs("q", qshape, None)
-        got = getattr(pyrepseq, entry)(refs, max_edits=k, seqs2=qs)
+        got = getattr(pyrepseq, entry)(refs, max_edits=k, seqs2=qs, **kw)
         if not isinstance(got, list):
             return False, "not a list"
         ok = hc.exact_triplets(got, len(qs), len(refs), _dist_fn(qs, refs), k, self_mode=False)
@@ -63,14 +63,39 @@ def _body_symdel(rshape, qshape, k, entry):
     return body
 
 
-def _replay_symdel(rshape, qshape, k, entry):
+def _replay_symdel(rshape, qshape, k, entry, **kw):
     def replay(inputs):
         import pyrepseq
         refs = [inputs[f"r{i}"] for i in range(len(rshape))]
         qs = [inputs[f"q{i}"] for i in range(len(qshape))]
-        got = getattr(pyrepseq, entry)(list(refs), max_edits=k, seqs2=list(qs))
+        got = getattr(pyrepseq, entry)(list(refs), max_edits=k, seqs2=list(qs), **kw)
         ok, detail = hc.compare_triplets(got, hc.want_triplets(qs, refs, hc.lev, k, False))
         return ok, f"{entry}({refs!r}, max_edits={k}, seqs2={qs!r}): {detail}"
+    return replay
+
+
+# ---- the SAME object on both sides: symdel(X, seqs2=X) is still the two-collection form (every position pairs with itself at distance 0)
+def _body_symdel_same(shape, k, entry, container):
+    def body():
+        import pyrepseq
+        strs = _mk_strs("r", shape, None)
+        X = tuple(strs) if container == "tuple" else list(strs)
+        got = getattr(pyrepseq, entry)(X, max_edits=k, seqs2=X)
+        if not isinstance(got, list):
+            return False, "not a list"
+        ok = hc.exact_triplets(got, len(strs), len(strs), _dist_fn(strs, strs), k, self_mode=False)
+        return ok, (lambda: f"{entry}(X, max_edits={k}, seqs2=X) with one {container} object returned {_fmt(got)}")
+    return body
+
+
+def _replay_symdel_same(shape, k, entry, container):
+    def replay(inputs):
+        import pyrepseq
+        strs = [inputs[f"r{i}"] for i in range(len(shape))]
+        X = tuple(strs) if container == "tuple" else list(strs)
+        got = getattr(pyrepseq, entry)(X, max_edits=k, seqs2=X)
+        ok, detail = hc.compare_triplets(got, hc.want_triplets(strs, strs, hc.lev, k, False))
+        return ok, f"{entry}(X, max_edits={k}, seqs2=X) with X = {X!r} (one object on both sides): {detail}"
     return replay
 
 
@@ -266,6 +291,15 @@ def conditions(tier):
         out.append(_mk_db("lookupdb", (1,), (1,), (), 1, hc.AMINO, budget=2400))
         out.append(_mk_db("lookupdb", (2,), (1,), (), 1, hc.AMINO, budget=3000))
         out.append(_mk_db("lookupdb", (2,), (2,), (0,), 3, S2, budget=2400))
+    for rs, qs_, k in [((1,), (1,), 1), ((2, 1), (1, 2), 1)]:                   # progress=True only wraps the query loop in a progress bar
+        out.append(Condition(f"C03/symdel/progress/ref={','.join(map(str, rs))}/qry={','.join(map(str, qs_))}/k={k}", _body_symdel(rs, qs_, k, "symdel", progress=True),
+                             _replay_symdel(rs, qs_, k, "symdel", progress=True), budget=300, models=("rf", "misc"),
+                             bounds=f"symdel(refs {rs}, seqs2 {qs_}, max_edits={k}, progress=True)"))
+    for entry, shape, k, container in [("symdel", (1, 1), 1, "list"), ("symdel", (2, 1), 1, "list"), ("nearest_neighbor", (2, 1), 1, "list"),
+                                      ("symdel", (2, 2), 2, "tuple"), ("nearest_neighbor", (1, 1, 0), 1, "tuple")]:
+        out.append(Condition(f"C03/{entry}/same-object/{container}/len={','.join(map(str, shape))}/k={k}", _body_symdel_same(shape, k, entry, container),
+                             _replay_symdel_same(shape, k, entry, container), budget=300, models=("rf", "np"),
+                             bounds=f"{entry}(X, seqs2=X): one {container} object with strings of lengths {shape} on both sides, max_edits={k}"))
     for which in ("symdel", "symdeldb", "lookupdb"):
         out.append(hc.probe_condition(f"C03/probe/{which}/70000-references", f"{which}: four queries against 70 006 references (hits at reference positions 255, 65536, 69999 "
                                       "and beyond 70000): exact (query, reference, distance) set", _probe_scale(which)))
